@@ -18,14 +18,16 @@ class LatticeOP(OrderParameter):
         super().__init__(description="lattice position", velocity=False)
 
     def calculate(self, system):
-        return [float(system.pos[0][0])]
+        x = float(system.pos[0][0])
+        return [x, 2.0 * x + 1.0]      # two order columns (the second is a collective variable)
 
 
 class LatticeEngine(EngineBase):
     """Symmetric +-1 walk on the integers with a reflecting wall at `wall`."""
 
-    def __init__(self, timestep=1.0, subcycles=1, wall=-6, temperature=1.0):
+    def __init__(self, timestep=1.0, subcycles=1, wall=-6, temperature=1.0, aux=False):
         super().__init__("lattice walk", timestep, subcycles)
+        self.aux = aux            # write a side file <traj>.aux next to every trajectory (keep_traj_fnames)
         self.ext = "lat"
         self.wall = wall
         self.name = "lattice"
@@ -71,7 +73,7 @@ class LatticeEngine(EngineBase):
         status = ""
         for i in range(path.maxlen):
             xs.append(x)
-            snapshot = {"order": [float(x)], "config": (traj_file, i), "vel_rev": reverse}
+            snapshot = {"order": [float(x), 2.0 * x + 1.0], "config": (traj_file, i), "vel_rev": reverse}
             pp = self.snapshot_to_system(system, snapshot)
             status, success, stop, _ = self.add_to_path(path, pp, left, right)
             if stop:
@@ -82,5 +84,8 @@ class LatticeEngine(EngineBase):
                 x += 1 if self.rgen.random() < 0.5 else -1
         with open(traj_file, "w") as f:
             f.write("\n".join(map(str, xs)) + "\n")
+        if self.aux:
+            with open(os.path.splitext(traj_file)[0] + ".aux", "w") as f:
+                f.write(f"{len(xs)} frames\n")
         path.update_energies([0.0] * len(xs), [0.0] * len(xs))
         return success, status
